@@ -7,6 +7,7 @@ import (
 	"fmt"
 	"sort"
 	"strings"
+	"time"
 
 	"pgregory.net/rapid"
 )
@@ -191,10 +192,21 @@ func drawC08(t *rapid.T) *Case {
 			p.Args = append(p.Args, "-timeout-http-write", "0s")
 		}
 	}
+	// slow back-end connections (6%): every dial of the proxy's transport takes 6-30 s, longer
+	// than a configured -timeout-http-read of 5 s and shorter than the write timeout.  HTTP/2
+	// clients only: their uploads fit the server's windows and have arrived in full, END_STREAM
+	// included, before the clock moves - the read timeout has nothing left to cut, the request is
+	// forwarded intact once the connection stands (wave 12, C08-t).  (An HTTP/1.1 body is read
+	// from the connection on demand, after the dial: there the timeout legitimately fails it.)
+	slowDial := !focus && !aged && drawBool(t, "slowdial", 6)
+	if slowDial {
+		p.Args = append(p.Args, "-timeout-http-read", "5s")
+		p.Faults.SlowDial = time.Duration(rapid.IntRange(6000, 30000).Draw(t, "slowdialms")) * time.Millisecond
+	}
 	var metas []*ClientMeta
 	for ci := 0; ci < nc; ci++ {
 		proto := []string{"h2", "h1"}[rapid.IntRange(0, 1).Draw(t, "proto")]
-		if focus {
+		if focus || slowDial {
 			proto = "h2"
 		}
 		cp := &ClientPlan{ID: ci, Addr: fmt.Sprintf("198.51.100.%d:%d", 10+ci, 32000+ci), Hello: fixedHello(proto)}
@@ -395,7 +407,7 @@ func drawC08(t *rapid.T) *Case {
 		p.Clients = append(p.Clients, cp)
 		metas = append(metas, m)
 	}
-	if focus || drawBool(t, "canceller", 30) {
+	if focus || (!slowDial && drawBool(t, "canceller", 30)) {
 		// a further HTTP/2 client that cancels large downloads part-way (its exchanges are not
 		// compared): whatever that leaves behind must not touch the other exchanges
 		ci := nc
@@ -421,7 +433,7 @@ func drawC08(t *rapid.T) *Case {
 		metas = append(metas, &ClientMeta{Proto: "h2", Kind: "canceller"})
 		aux.Canceller = true
 	}
-	if !focus && drawBool(t, "upgrader", 20) {
+	if !focus && !slowDial && drawBool(t, "upgrader", 20) {
 		// a further HTTP/1.1 client that upgrades the protocol (101 through the reverse proxy) and
 		// then exchanges opaque bytes with the back-end through the tunnel
 		ci := len(p.Clients)
